@@ -62,6 +62,10 @@ type queuedDataFrame struct {
 	streamID  uint32
 	endStream bool
 	data      []byte
+
+	// maxFrameSize returns the receiver's current SETTINGS_MAX_FRAME_SIZE. The payload was cut by the
+	// limit in force when it was queued; the receiver may have lowered it while the frame waited.
+	maxFrameSize func() uint32
 }
 
 func (f *queuedDataFrame) StreamID() uint32 {
@@ -73,7 +77,15 @@ func (f *queuedDataFrame) flowControlSize() int {
 }
 
 func (f *queuedDataFrame) send(dest *http2.Framer) error {
-	return dest.WriteData(f.streamID, f.endStream, f.data)
+	data := f.data
+	if f.maxFrameSize != nil {
+		for limit := int(f.maxFrameSize()); limit > 0 && len(data) > limit; data = data[limit:] {
+			if err := dest.WriteData(f.streamID, false, data[:limit]); err != nil {
+				return err
+			}
+		}
+	}
+	return dest.WriteData(f.streamID, f.endStream, data)
 }
 
 func (f *queuedDataFrame) String() string {
